@@ -150,7 +150,9 @@ def be16 (hi lo : UInt8) : Nat := hi.toNat * 256 + lo.toNat
 /-- 4-byte address as the 16-byte (v4-in-v6) form, what `To16()` of the resolved address gives -/
 def to16 (a : Bytes) : Bytes := List.replicate 10 0 ++ [0xFF, 0xFF] ++ a
 
-def parseV2 (vis : Bytes) : Rd :=
+/-- `atEOF`: reading past the visible bytes yields io.EOF (peer closed, or the header limiter is exhausted)
+    rather than a deadline error -/
+def parseV2 (vis : Bytes) (atEOF : Bool) : Rd :=
   match vis.drop 12 with
   | [] => .err
   | b13 :: r1 =>
@@ -158,7 +160,7 @@ def parseV2 (vis : Bytes) : Rd :=
     else
       let isLocal := b13 = 0x20
       match r1 with
-      | [] => .err
+      | [] => if isLocal ∧ atEOF = true then .sock 13 else .err   -- legacy 13-byte LOCAL: stream ends after the command byte
       | b14 :: r2 =>
         if ¬ supportedFam b14 ∧ ¬ (isLocal ∧ b14 = 0x00) then .err
         else
@@ -180,7 +182,7 @@ def parseV2 (vis : Bytes) : Rd :=
 
 /-! ### Read -/
 
-def readHeader (env : Env) (vis : Bytes) : Rd :=
+def readHeader (env : Env) (vis : Bytes) (atEOF : Bool) : Rd :=
   match vis with
   | [] => .err
   | b :: _ =>
@@ -188,7 +190,7 @@ def readHeader (env : Env) (vis : Bytes) : Rd :=
     else if vis.length < 5 then .err
     else if vis.take 5 = sigV1 then parseV1 env vis
     else if vis.length < 12 then .err
-    else if vis.take 12 = sigV2 then parseV2 vis
+    else if vis.take 12 = sigV2 then parseV2 vis atEOF
     else .noProxy
 
 /-! ### Conn -/
@@ -226,10 +228,14 @@ def connOf (rd : Rd) (stream : Bytes) (e : EndK) : Obs :=
       | none => rejectObs (some sa)
       | some da => { src := some sa, dst := some da, data := stream.drop n, fin := finOf e, closed := false }
 
+/-- past the visible bytes the reader sees io.EOF when the peer closed or the header limiter (N = limit) is used up -/
+def atEOFOf (stream : Bytes) (limit : Nat) (e : EndK) : Bool :=
+  decide (stream.length ≥ effLimit limit) || e == .eof
+
 /-- the whole life of one `bfe_proxy.Conn`: the peer sends `stream` then ends with `e`; the application
     asks for the addresses and reads until an error -/
 def connRun (env : Env) (stream : Bytes) (limit : Nat) (e : EndK) : Obs :=
-  connOf (readHeader env (stream.take (effLimit limit))) stream e
+  connOf (readHeader env (stream.take (effLimit limit)) (atEOFOf stream limit e)) stream e
 
 /-!
   ## Specification side (written from the PROXY protocol text, haproxy doc/proxy-protocol.txt §2.1, §2.2;
@@ -335,6 +341,7 @@ def specV2 (stream : Bytes) : Expect × String :=
        if isV4Mapped (rest.take 16) || isV4Mapped ((rest.drop 16).take 16) then "v2-tcp6-v4mapped"
        else if len > bufSize then "v2-len-gt-buffer" else "v2-tcp6")
     else (.either (16 + len), "v2-other-family")
+  | [0x20] => (.either 13, "v2-local-legacy13")   -- tolerated: nothing follows, so nothing can be mis-delivered
   | _ => (.reject, "v2-truncated")
 
 def startsWith (s p : Bytes) : Bool := s.take p.length == p
